@@ -44,6 +44,9 @@ Qed.
 Lemma cE_1 : cE 1 = 64.
 Proof. reflexivity. Qed.
 
+Lemma cP_eq w : cP w = 2 * 2 ^ (w + 2).
+Proof. unfold cP. replace (w + 3) with (N.succ (w + 2)) by lia. now rewrite N.pow_succ_r'. Qed.
+
 Global Opaque cP cE.
 
 (** ** the measure is positive *)
